@@ -93,4 +93,11 @@ def DrRange (x : Nat) (threads : Int) (o : DOut) : Prop :=
 instance (x : Nat) (threads : Int) (o : DOut) : Decidable (DrRange x threads o) := by
   unfold DrRange; infer_instance
 
+/-- named envelope of `maxx_default`: the default `alpha_y` (util.cpp 342-389: the cubic in `log x`, halved, truncated to
+    3 decimals) is at least 110 on `(2^93 − 2^54, 10^31]` (real values: 118.5 at 2^93, 195.6 at 10^31). -/
+def DefaultAlphaYAtLeast110 (x : Nat) (ay : Rat) : Prop := 2 ^ 93 - 2 ^ 54 < x → 110 ≤ ay
+
+instance (x : Nat) (ay : Rat) : Decidable (DefaultAlphaYAtLeast110 x ay) := by
+  unfold DefaultAlphaYAtLeast110; infer_instance
+
 end Pc
